@@ -31,7 +31,7 @@ func init() {
 		Level: "model_checking",
 		// generous internal deadline: the run takes 1-2 minutes on an idle machine and several times that next to other jobs
 		QuickBudget: 900,
-		Rule: "all histories of <=1 (thorough <=2) earlier programs followed by a program under test over an alphabet of 68 programs (incl. source files loaded by relative path - a module that raises, one that does not parse, a good one - and regular expressions whose texts share one symbol key) (incl. pairs that raise the same run-time error from different source positions, and programs that invite!/import the embedded and Go standard modules after defining variables) (define a variable, read it, shadow a built-in name, use a built-in, raise `_` on different lines, touch Either's abstract props, raise at depth 2, syntax error, intern new symbols via evalEnv, print, read stdin, iterate, user error, error inside native code, inspect built-in prototypes), " +
+		Rule: "all histories of <=1 (thorough <=2) earlier programs followed by a program under test over an alphabet of 72 programs (incl. source files loaded by relative path - a module that raises, one that does not parse, a good one - and regular expressions whose texts share one symbol key) (incl. pairs that raise the same run-time error from different source positions, and programs that invite!/import the embedded and Go standard modules after defining variables) (define a variable, read it, shadow a built-in name, use a built-in, raise `_` on different lines, touch Either's abstract props, raise at depth 2, syntax error, intern new symbols via evalEnv, print, read stdin, iterate, user error, error inside native code, inspect built-in prototypes), " +
 			"each history in a new process, under 2 reuse drivers (playground: one const env, one enclosed scope per program - the call sequence of web/wasm/executor.go; `pangaea test`: runscript.RunTest over a generated directory); " +
 			"oracle: (stdout, value, error message, stack trace) of the program under test equals its observation alone in a new process; states = histories, transitions = program evaluations; " +
 			"non-trivial = every history of length >=1; distinct = distinct (driver, history, program); round 8: The alphabet (68 programs) also has operations that fail part-way (caught) next to the same operations done plainly, and many failed deep calls next to a 9900-deep recursion.",
@@ -133,6 +133,12 @@ var alphabet = []prog{
 	// many failed calls, then a deep (but finite) recursion
 	{Name: "many-failed-deep-calls", Src: "f := {|n| raise ValueErr.new(\"x\") if n == 0; f(n - 1)}\n(1:80)@{|i| nil.try.{|u| f(100)}.err?}.len"},
 	{Name: "recursion-9900-deep", Src: "g := {|n| return 0 if n == 0; g(n - 1)}\ng(9900)"},
+	// a program that makes the interpreter learn very many new names, and programs that need names turned back into text
+	{Name: "learn-70000-names", Src: "(1:70001)@{|i| %{(\"zz_c19_n\" + i.S): 1}.len}.len"},
+	{Name: "evalEnv-with-fresh-names-in-between", Src: "`a := 1; r := (1:3000)@{|i| %{(\"zz_c19_m\" + i.S): i}.len}.len; b := 2`.evalEnv.keys"},
+	// small ints around powers of two, negative first / positive first
+	{Name: "negative-powers-of-two", Src: "[-64 * 8, -512 + 0, 0 - 1024, -2 ** 9, -256 * 2, -127 - 1, -255 - 1, 0 - 64]"},
+	{Name: "positive-powers-of-two", Src: "[2 ** 9, 1024 // 2, 256 + 256, 512 > 0, 2 ** 10, 64 * 2, 127 + 1, 255 + 1, [64, 128, 256, 512].sum, 8 * 8]"},
 	{Name: "bear-patch-builtins", Src: "c := Int.bear({extra: 1})\nd := {a: 1}.patch(b: 2)\n[c['extra], Int['extra], d, Obj['b]]"},
 }
 
@@ -214,6 +220,19 @@ func protoDigest() map[string]string {
 		sort.Strings(ks)
 		d[n] = strings.Join(ks, ",")
 	}
+	// every name the prototypes use is still known to the interpreter-wide symbol table (names are never forgotten)
+	lost := 0
+	for _, p := range builtinProtos {
+		if p == nil || p.Pairs == nil {
+			continue
+		}
+		for h := range *p.Pairs {
+			if _, ok := object.SymHash2Str(h); !ok {
+				lost++
+			}
+		}
+	}
+	d["<symbol table>"] = fmt.Sprintf("names of built-in properties that cannot be turned back into text: %d", lost)
 	return d
 }
 
